@@ -267,9 +267,7 @@ def run(tier, seed, lean):
         for li, ft in enumerate(flats):
             flat_jobs.append({'id': len(flat_jobs), 'text': ft, 'cases': [(0, t) for t in inputs], 'entries': ['__module__'], 'fuel': 300,
                               'meta': {'ctx': f'flattened level {li}'}})
-    ctx = mp.get_context('fork')
-    with ctx.Pool(min(16, os.cpu_count() or 4), initializer=_init, initargs=(bits,)) as pool:
-        results = list(pool.imap_unordered(_job, jobs, chunksize=4))
+    results = corerun.pool_map(_job, jobs, _init, (bits,), chunksize=4)
     violations, broken = [], []
     evals = sum(r['n'] for r in results)
     nontrivial = sum(r['nontrivial'] for r in results)
